@@ -13,6 +13,7 @@
 #include "echsd.c"
 #undef main
 #include "nd.h"
+#include <sys/socket.h>
 
 /* ------------------------------------------------------------------ loop */
 struct ev_loop { double now; };
@@ -269,51 +270,53 @@ static void slot_close(struct echs_conn_s *c)
 	nheld = k;
 	free_conn(c);
 }
+static void slot_gone(struct echs_conn_s *c)
+{
+	/* the daemon has given the slot back itself (shut_conn -> free_conn) */
+	size_t k = 0; for (size_t i = 0; i < nheld; i++) if (held[i] != c) held[k++] = held[i];
+	fprintf(o, "{\"e\":\"Slot\",\"op\":\"close\",\"slot\":%ld,\"nheld\":%zu,\"clash\":false}\n", (long)(c - conns), nheld);
+	nheld = k;
+}
+/* one request = one connection, handled by the daemon's own sock_data_cb(): the peer's end of a socket pair is written to in
+ * pieces (chunks: comma separated sizes, the last one repeats; NULL: as much as goes at once), after every piece the connection
+ * is reported readable once; then the peer shuts its sending side down, which is the last readable event.  Whatever the daemon
+ * writes back is collected from the peer's end. */
 static void do_request_chunked(const char *kind, uid_t peer, char *text, const char *chunks)
 {
-	int pfd[2]; if (__real_pipe(pfd) < 0) return;
-	fcntl(pfd[0], F_SETFL, O_NONBLOCK);
+	int sv[2]; if (socketpair(AF_UNIX, SOCK_STREAM, 0, sv) < 0) return;
 	struct echs_conn_s *conn = slot_open();
 	if (conn == NULL) {
 		/* the table is full: the daemon closes the connection without an answer */
-		__real_close(pfd[0]); __real_close(pfd[1]);
+		__real_close(sv[0]); __real_close(sv[1]);
 		fprintf(o, "{\"e\":\"Refused\",\"kind\":\"%s\",\"peer\":%u}\n", kind, peer);
 		return;
 	}
-#define param (*conn->cmd)
 	ncred_t cred = {peer, peer, "/tmp", "/bin/sh"};
 	conn->cred = cred;
-	size_t len = strlen(text);
-	const char *what = "unk";
-	if (chunks == NULL) {
-		echs_cmd_t c = feed_cmd(&param, text, len);
-		switch (c) {
-		case ECHS_CMD_HTTP: what = "http"; (void)cmd_http(&the_loop, pfd[1], &param.http, cred); break;
-		case ECHS_CMD_ICAL: what = "ical"; (void)cmd_ical(&the_loop, pfd[1], &param.ical, cred); break;
-		default: break;
-		}
-	} else {
-		size_t off = 0, sz = 4096; const char *cp = chunks; int done = 0;
-		while (!done) {
-			if (cp && *cp) { sz = strtoul(cp, (char**)&cp, 10); if (*cp == ',') cp++; if (!sz) sz = 1; }
-			size_t n = len - off < sz ? len - off : sz;      /* n == 0: the peer has closed its end */
-			char *iobuf = conn->buf; if (n > conn->bsz) n = conn->bsz;	/* the connection's own buffer */
-			memcpy(iobuf, text + off, n); off += n;
-			switch (feed_cmd(&param, iobuf, n)) {
-			case ECHS_CMD_HTTP: what = "http"; (void)cmd_http(&the_loop, pfd[1], &param.http, cred); done = 1; break;
-			case ECHS_CMD_ICAL: what = "ical"; (void)cmd_ical(&the_loop, pfd[1], &param.ical, cred); if (n == 0) done = 1; break;
-			default: done = 1; break;
-			}
-		}
-	}
-	shut_cmd(&param);
-#undef param
-	slot_close(conn);
-	__real_close(pfd[1]);
+	ev_io_init(&conn->r, sock_data_cb, sv[0], EV_READ);
+	ev_io_start(&the_loop, &conn->r);
+	fcntl(sv[1], F_SETFL, O_NONBLOCK);
 	static char rb[1 << 20]; size_t n = 0; ssize_t r;
-	while ((r = read(pfd[0], rb + n, sizeof(rb) - 1 - n)) > 0) n += r;
-	rb[n] = 0; __real_close(pfd[0]);
-	fprintf(o, "{\"e\":\"%s\",\"peer\":%u,\"parsed\":\"%s\",\"reply\":", kind, peer, what); jstr(rb); fputs("}\n", o);
+	size_t len = strlen(text), off = 0, sz = 4096; const char *cp = chunks; int eof = 0, rounds = 0;
+	while (conn->r.active && rounds++ < 100000) {
+		if (off < len) {
+			if (cp && *cp) { sz = strtoul(cp, (char**)&cp, 10); if (*cp == ',') cp++; if (!sz) sz = 1; }
+			size_t want = len - off < sz ? len - off : sz;
+			if (want > 4096) want = 4096;
+			ssize_t w = send(sv[1], text + off, want, MSG_NOSIGNAL);
+			if (w <= 0) break;
+			off += w;
+		} else if (!eof) { shutdown(sv[1], SHUT_WR); eof = 1; }
+		else break;	/* the daemon keeps the connection although the peer is done: reported below */
+		conn->r.cb(&the_loop, &conn->r, EV_READ);
+		while (n < sizeof(rb) - 1 && (r = read(sv[1], rb + n, sizeof(rb) - 1 - n)) > 0) n += r;
+	}
+	int lingering = conn->r.active;
+	if (lingering) { ev_io_stop(&the_loop, &conn->r); shut_conn(conn); }
+	slot_gone(conn);
+	while (n < sizeof(rb) - 1 && (r = read(sv[1], rb + n, sizeof(rb) - 1 - n)) > 0) n += r;
+	rb[n] = 0; __real_close(sv[1]);
+	fprintf(o, "{\"e\":\"%s\",\"peer\":%u,\"parsed\":\"sock\",\"lingering\":%s,\"reply\":", kind, peer, lingering ? "true" : "false"); jstr(rb); fputs("}\n", o);
 }
 static void do_request(const char *kind, uid_t peer, char *text) { do_request_chunked(kind, peer, text, NULL); }
 static ev_tstamp tstamp_probe(echs_instant_t i) { return instant_to_tstamp(i); }
